@@ -23,7 +23,7 @@ def main():
         if args and not any(a in m['id'] for a in args):
             continue
         shutil.rmtree(SCRATCH, ignore_errors=True)
-        shutil.copytree('/repo', SCRATCH, ignore=shutil.ignore_patterns('.git', '__pycache__', '*.egg-info'))
+        shutil.copytree(os.environ.get('VERIF_SRC_REPO', '/repo'), SCRATCH, ignore=shutil.ignore_patterns('.git', '__pycache__', '*.egg-info'))
         try:
             p = os.path.join(SCRATCH, m['file'])
             s = open(p).read()
